@@ -53,7 +53,7 @@ Proof. unfold gen_CovTriangle, cor_triangle. apply Qmax_ext; [reflexivity|ring].
 Lemma gen_reg1d_ok n f h : gen_CovReg1D n f h == cor_reg1d h.
 Proof. unfold gen_CovReg1D, cor_reg1d. destruct (qltb h 1); [field|]. destruct (qltb h 2); [field|reflexivity]. Qed.
 Lemma gen_penta_ok n f h : gen_CovPenta n f h == cor_penta h.
-Proof. unfold gen_CovPenta, cor_penta, cor_reg1d. destruct (qltb h 1); [field|]. destruct (qltb h 2); [field|reflexivity]. Qed.
+Proof. unfold gen_CovPenta, cor_penta. cbv zeta. destruct (qltb h 1); [ring|reflexivity]. Qed.
 Lemma gen_wendland0_ok n f h : gen_CovWendland0 n f h == cor_wendland0 h.
 Proof. unfold gen_CovWendland0, cor_wendland0. destruct (qltb h 1); [ring|reflexivity]. Qed.
 Lemma gen_wendland1_ok n f h : gen_CovWendland1 n f h == cor_wendland1 h.
@@ -75,11 +75,18 @@ Lemma gen_classes_expected :
                  "CovReg1D"; "CovPenta"; "CovWendland0"; "CovWendland1"; "CovWendland2"]%string.
 Proof. reflexivity. Qed.
 
-(* the Penta closed form is the 1-D regularised one *)
-Lemma penta_is_reg1d h : cor_penta h = cor_reg1d h.
-Proof. reflexivity. Qed.
+(* every structure but J-Bessel passes every check of the reference table *)
+Lemma table_ok_strict e : In e cov_table -> ce_name e <> "J-Bessel"%string -> failures e = [].
+Proof.
+  intros He Hn. destruct (failures e) as [|c r] eqn:E; [reflexivity|]. exfalso.
+  assert (Hc : In c (failures e)) by (rewrite E; left; reflexivity).
+  pose proof (table_entry_ok e He c Hc) as H. cbn in H. destruct H as [H|[]]. apply Hn. congruence.
+Qed.
+(* the factory refuses a structure outside its dimension of validity and only offers structures usable in the space *)
+Lemma factory_guard_generated : factory_guards_dimension = true /\ factory_checks_space = true.
+Proof. split; reflexivity. Qed.
 
-(* ------------------------------------------------------------------ Penta witness *)
+(* ------------------------------------------------------------------ regression witness (pre-fix Penta = Reg1D form with scale = range) *)
 Lemma penta_witness :
   penta_matrix_enc = map (map (fun v => Some (v, v))) penta_K /\
   penta_all_exact = true /\
